@@ -18,8 +18,15 @@ Modelled:
 * ``set.intersection(dict)`` + ``sorted(set of names)``: the sorted list of ``A & B`` is the enumeration ``c09n_sorted_at(A, B, .)`` of length
   ``c09n_sorted_n(A, B)`` - a *function of the two membership arrays* - ASSUMED to be a bijective enumeration of the intersection (the
   lexicographic order itself is not modelled: the proofs hold for every order).
+* ``outer[k]`` for a dictionary of dictionaries (value-embedded): when a live dictionary object already stands for that slot (e.g. the local
+  ``output_jac = self.jac[output_name]``), THE SAME object is returned (Python reference semantics: ``self.jac[o][v] = x`` is seen through
+  ``output_jac`` and conversely); a stale object (slot rebound / havoc'ed since) is never returned (checked on the terms).
+* ``{x: d.pop(x) for x in names}`` for ``names`` = such a sorted intersection: the popped entries, in the order of the list (an ordered
+  dictionary keyed by the list), ``d`` loses exactly these keys; the KeyError of a missing / repeated name is a generated obligation.
 """
 from __future__ import annotations
+
+import ast
 
 import z3
 
@@ -146,7 +153,99 @@ class C09NumModels:
         st.assume(z3.ForAll([p], el[p] == sa(R, D, p), patterns=[el[p]]))
         ex.assumed.add("sorted(set(a).intersection(b)) of names: a bijective enumeration of the intersection, a function of the two key sets (the lexicographic order itself is not modelled)")
         lo = ListObj(TStr, sn(R, D), el)
-        return st.alloc(lo)
+        ref = st.alloc(lo)
+        st.ghost.setdefault("c09n_sorted_lists", {})[ref.id] = (R, D, el)
+        return ref
+
+    # ------------------------------------------------------------------ the dictionary object of a slot of a dictionary of dictionaries
+    def getitem(self, ex, cont, key, lineno):
+        if not (_on(ex) and isinstance(cont, Ref)):
+            return NotImplemented
+        st = ex.st
+        o = st.heap.get(cont.id)
+        if not (isinstance(o, DictObj) and not o.is_empty_literal and isinstance(o.v, TDict)):
+            return NotImplemented
+        from .engine import PyRaise
+
+        kt = o.k.embed(st, key)
+        if not st.decide(o.member[kt]):
+            raise PyRaise("KeyError", lineno)
+        slot = z3.simplify(o.vals[kt])
+        env_ids = {v.id for fr in st.frames for v in fr.env.values() if isinstance(v, Ref)}
+        best = None
+        for i, x in st.heap.items():
+            if isinstance(x, DictObj) and x.origin is not None and isinstance(x.origin[0], Ref) and x.origin[0].id == cont.id and x.origin[2] == "dict" \
+                    and x.origin[1].eq(kt) and x.ty is not None and z3.simplify(x.ty.embed(st, Ref(i))).eq(slot):
+                if best is None or (i in env_ids and best not in env_ids):
+                    best = i
+        if best is not None:
+            return Ref(best)
+        if o.origin is not None and not o.v.ordered:
+            # a row of a discipline's Jacobian (read only here): its iteration order is given once, by facts whose triggers do not feed one
+            # another (no position term is created from a key term) - the engine's own order facts are not added for it
+            ref = o.v.project(st, o.vals[kt], (cont, kt, "dict"))
+            r = st.heap[ref.id]
+            r.keys = st.fresh_const("rkeys", z3.ArraySort(I, r.k.sort()))
+            r.pos = st.fresh_const("rpos", z3.ArraySort(r.k.sort(), I))
+            t = z3.Int("t!ro")
+            k = z3.Const("k!ro", r.k.sort())
+            k2 = z3.Const("k2!ro", r.k.sort())
+            # keys: [0, n) -> members with pos(keys(t)) = t; pos: members -> [0, n) injective  (i.e. pos is a bijection and keys its inverse);
+            # no NAME term is ever created from a name term by these facts
+            st.assume(z3.ForAll([t], z3.Implies(z3.And(0 <= t, t < r.n), z3.And(r.member[r.keys[t]], r.pos[r.keys[t]] == t)), patterns=[r.keys[t]]))
+            st.assume(z3.ForAll([k], z3.Implies(r.member[k], z3.And(0 <= r.pos[k], r.pos[k] < r.n)), patterns=[r.pos[k]]))
+            st.assume(z3.ForAll([k, k2], z3.Implies(z3.And(r.member[k], r.member[k2], r.pos[k] == r.pos[k2]), k == k2), patterns=[z3.MultiPattern(r.pos[k], r.pos[k2])]))
+            return ref
+        return NotImplemented
+
+    def comprehension(self, ex, node, kind):
+        """{x: d.pop(x) for x in names} with names = sorted(set(d0) & set(e)) built by the model above."""
+        if not (_on(ex) and isinstance(node, ast.DictComp) and len(node.generators) == 1 and not node.generators[0].ifs):
+            return NotImplemented
+        gen = node.generators[0]
+        call = node.value
+        if not (isinstance(gen.target, ast.Name) and isinstance(node.key, ast.Name) and node.key.id == gen.target.id):
+            return NotImplemented
+        x = gen.target.id
+        if isinstance(call, ast.Call) and isinstance(call.func, ast.Attribute) and call.func.attr == "pop" and len(call.args) == 1 and not call.keywords \
+                and isinstance(call.args[0], ast.Name) and call.args[0].id == x:
+            popping, dnode = True, call.func.value
+        elif isinstance(call, ast.Subscript) and isinstance(call.slice, ast.Name) and call.slice.id == x:
+            popping, dnode = False, call.value  # {x: d[x] for x in names}: the same entries, d is left as it is
+        else:
+            return NotImplemented
+        st = ex.st
+        L = ex.ev(gen.iter)
+        info = st.ghost.get("c09n_sorted_lists", {}).get(L.id) if isinstance(L, Ref) else None
+        d = ex.ev(dnode)
+        do = st.heap.get(d.id) if isinstance(d, Ref) else None
+        if info is None or not isinstance(do, DictObj) or do.is_empty_literal or do.k != TStr:
+            return NotImplemented
+        R, D, el = info
+        lo = st.heap[L.id]
+        n = lo.n
+        i, j = z3.Int("i!pop"), z3.Int("j!pop")
+        k = z3.Const("k!pop", StrS)
+        # every pop finds its key: the names are keys of d and pairwise distinct (else KeyError)
+        ex.check(z3.ForAll([i], z3.Implies(z3.And(0 <= i, i < n), do.member[sa(R, D, i)]), patterns=[sa(R, D, i)]), "safety", "popped-names-are-keys", node.lineno, aux=True)
+        ex.check(z3.ForAll([i, j], z3.Implies(z3.And(0 <= i, i < j, j < n), sa(R, D, i) != sa(R, D, j)), patterns=[z3.MultiPattern(sa(R, D, i), sa(R, D, j))]), "safety", "popped-names-are-distinct", node.lineno, aux=True) if popping else None
+        A, Bm = JROW.acc(0)(R), JADDR.acc(0)(D)
+        mem = st.fresh_const("popped_mem", NSET)
+        st.assume(z3.ForAll([k], mem[k] == z3.And(A[k], Bm[k]), patterns=[mem[k]]))
+        pos = st.fresh_const("popped_pos", z3.ArraySort(StrS, I))
+        st.assume(z3.ForAll([i], z3.Implies(z3.And(0 <= i, i < n), pos[sa(R, D, i)] == i), patterns=[pos[sa(R, D, i)]]))  # (no position term is created from a name)
+        st.assume(z3.ForAll([k], z3.Implies(mem[k], z3.And(0 <= pos[k], pos[k] < n, sa(R, D, pos[k]) == k)), patterns=[pos[k]]))
+        res = DictObj(do.k, do.v, mem, do.vals, n, keys=el, pos=pos)
+        res.ty = TDict(do.k, do.v, ordered=True)
+        if popping:
+            left = st.fresh_const("left_mem", NSET)
+            st.assume(z3.ForAll([k], left[k] == z3.And(do.member[k], z3.Not(mem[k])), patterns=[left[k]]))
+            do.member, do.n = left, do.n - n
+            if do.keys is not None:
+                raise Unsupported("pop on an ordered dictionary of blocks")
+            ex.writeback(do)
+        ex.assumed.add("{x: d.pop(x) for x in sorted(set(d) & set(e))}: the popped entries in the order of the list; d loses exactly these keys (KeyError of a missing / repeated name: generated obligations)")
+        return st.alloc(res)
 
     # ------------------------------------------------------------------ blocks
     def isinstance_(self, ex, v, cls):
